@@ -59,7 +59,8 @@ theorem addPoint_inv {o : FOps} (h : Lawful o) {pl : PL} (hi : Inv o pl) {x : Ra
     have hbx : Fx o bx := hfx (bx, byy) (by simp)
     have hle := le_fadd_eps h hbx
     split
-    · rename_i hlt
+    · rename_i hlt0
+      have hlt : fadd o bx eps4 < x := hlt0
       have hbxx : bx < x := by grind
       have hall : ∀ b ∈ xsOf rest, b < x := by
         intro b hb
